@@ -212,3 +212,17 @@ ALoop.methods["create_task"] = amethod("loop.create_task", {"self": ALoop, "coro
                                        result=Task, fresh_result=True, emits=_create_task_emits, has_events=True)
 ALoop.methods["create_future"] = amethod("loop.create_future", {"self": ALoop}, result=Future, fresh_result=True,
                                          ensures=lambda c, self, result: c.Not(flag(result, "is_done")))
+
+
+# ---- asyncio.Event (trio runner's readiness) ------------------------------------------------------------------------
+AEvent = TAbs("asyncio.Event", fields=dict(isset=BOOL), events=False)
+AEvent.methods["set"] = amethod("asyncio.Event.set", {"self": AEvent}, writes=lambda c, self: [(self, "isset")], ensures=lambda c, self: flag(self, "isset"),
+                                emits=lambda c, ctx, self: ctx.emit("aevent.set", self), has_events=True)
+AEvent.methods["wait"] = amethod("asyncio.Event.wait", {"self": AEvent}, doc="await event.wait(): returns once the event is set",
+                                 ensures=lambda c, self: flag(self, "isset"), writes=lambda c, self: [(self, "isset")],
+                                 emits=lambda c, ctx, self: ctx.emit("aevent.wait", self), has_events=True, is_async=True,
+                                 raises={"asyncio.CancelledError": lambda c, self, exc: True}, exact_raises=True)
+
+
+def install_runtime_types(E):
+    E.shared_types.update({"threading.Event": TEvent, "asyncio.Event": AEvent, "asyncio.Loop": ALoop, "asyncio.Future": Future, "threading.Lock": Lock})
